@@ -250,6 +250,7 @@ func fixedParas() []para {
 		{style: "fixed", p: defParams, width: 10.5, items: []text.Item{text.Box(9), text.Penalty(2, 50, true), text.Box(1), text.Glue(0, inf, 0), text.Penalty(0, -inf, false)}},
 		{style: "fixed", p: defParams, width: 10, items: []text.Item{text.Box(5), text.Glue(1, 5, 0), text.Box(1), text.Penalty(0, -50, false), text.Glue(1, 5, 0), text.Penalty(0, 500, false), text.Glue(1, 5, 0), text.Box(3), text.Glue(0, inf, 0), text.Penalty(0, -inf, false)}},
 		{style: "fixed", p: defParams, width: 10, items: []text.Item{text.Box(11), text.Glue(0, 0, 0), text.Box(1), text.Glue(1, 0, 5), text.Box(1), text.Glue(0, inf, 0), text.Penalty(0, -inf, false)}},
+		{style: "fixed", p: defParams, width: 24.25, items: []text.Item{text.Box(1.0 / 3), text.Glue(0, inf, 0), text.Penalty(0, -inf, false), text.Box(12.75), text.Box(11.5), text.Penalty(1.5, 999, true), text.Glue(0, inf, 0), text.Penalty(0, -inf, false)}},
 		{style: "fixed", p: defParams, width: 17.5, items: []text.Item{text.Box(1.0 / 3), text.Glue(0, inf, 0), text.Penalty(0, -inf, false), text.Box(0.75), text.Box(9), text.Glue(0, 3.75, 0), text.Penalty(0, 0, false), text.Glue(3.75, -3.75, 0), text.Box(2.75), text.Penalty(0, inf, false), text.Glue(0, 3.75, 0), text.Penalty(1.25, 500, true), text.Glue(0, -3.75, 0), text.Box(1.25), text.Glue(0, inf, 0), text.Penalty(0, -inf, false)}},
 	}
 }
